@@ -239,7 +239,12 @@ func c24Escape(r *Rand, mode int) c24Piece {
 		return p
 	case k == 15 && mode == 0:
 		// backslash before %: bash writes the backslash and starts a directive (C24-backslash-percent)
-		return c24Piece{s: "\\%", class: c24Diverge, tag: "esc-percent"}
+		d := c24Directive(r)
+		for d.class == c24Outside {
+			d = c24Directive(r)
+		}
+		d.s, d.class, d.tag = "\\"+d.s, c24Diverge, "esc-percent"
+		return d
 	default:
 		return c24Piece{s: "\\" + r.Pick([]string{"z", "-", " ", "8", "9", "A", "|", "$", "d", "s"}), tag: "esc-unknown"}
 	}
@@ -383,12 +388,16 @@ func c24Join(ps []c24Piece) (string, int, []string) {
 }
 
 // c24EscString builds a %b / echo -e argument.
-func c24EscString(r *Rand, mode int) (string, int, []string) {
+func c24EscString(r *Rand, mode int, clean bool) (string, int, []string) {
 	n := r.Intn(5)
 	var ps []c24Piece
 	for i := 0; i < n; i++ {
 		if r.Chance(55) {
-			ps = append(ps, c24Escape(r, mode))
+			p := c24Escape(r, mode)
+			for clean && p.class != c24Agree {
+				p = c24Escape(r, mode)
+			}
+			ps = append(ps, p)
 		} else {
 			ps = append(ps, c24Lit(r))
 		}
@@ -400,6 +409,8 @@ func c24EscString(r *Rand, mode int) (string, int, []string) {
 }
 
 func c24GenPrintf(r *Rand, thorough bool) (words []string, class int, tags []string) {
+	// clean: draw only material on which interp and bash are expected to agree
+	clean := r.Chance(55)
 	maxp := 5
 	if thorough {
 		maxp = 8
@@ -409,9 +420,17 @@ func c24GenPrintf(r *Rand, thorough bool) (words []string, class int, tags []str
 	for i := 0; i < n; i++ {
 		switch k := r.Intn(10); {
 		case k < 5:
-			ps = append(ps, c24Directive(r))
+			p := c24Directive(r)
+			for clean && p.class != c24Agree {
+				p = c24Directive(r)
+			}
+			ps = append(ps, p)
 		case k < 8:
-			ps = append(ps, c24Escape(r, 0))
+			p := c24Escape(r, 0)
+			for clean && p.class != c24Agree {
+				p = c24Escape(r, 0)
+			}
+			ps = append(ps, p)
 		default:
 			ps = append(ps, c24Lit(r))
 		}
@@ -420,6 +439,12 @@ func c24GenPrintf(r *Rand, thorough bool) (words []string, class int, tags []str
 		ps = append(ps, c24Piece{s: "\\", tag: "esc-trailing"})
 	}
 	format, class, tags := c24Join(ps)
+	if clean && strings.HasPrefix(format, "-") {
+		format = "|" + format
+	}
+	if clean {
+		tags = append(tags, "clean")
+	}
 	if strings.HasPrefix(format, "-") {
 		// bash parses a leading -… word as an option (finding C24-no-option-parsing)
 		if class < c24Diverge {
@@ -468,18 +493,27 @@ func c24GenPrintf(r *Rand, thorough bool) (words []string, class int, tags []str
 		case 'd', 'i':
 			var t string
 			a, ac, t = c24NumArg(r, false)
+			for clean && ac != c24Agree {
+				a, ac, t = c24NumArg(r, false)
+			}
 			tags = append(tags, t)
 		case 'u', 'o', 'x':
 			var t string
 			a, ac, t = c24NumArg(r, true)
+			for clean && ac != c24Agree {
+				a, ac, t = c24NumArg(r, true)
+			}
 			tags = append(tags, t)
 		case 'b':
 			var ts []string
-			a, ac, ts = c24EscString(r, 1)
+			a, ac, ts = c24EscString(r, 1, clean)
 			tags = append(tags, "barg")
 			_ = ts
 		default:
 			a = r.Pick(c24Strs)
+			for clean && p.verb == 's' && p.width && !c24IsASCII(a) {
+				a = r.Pick(c24Strs)
+			}
 			if p.verb == 's' && p.width && !c24IsASCII(a) {
 				// interp pads by runes, bash by bytes (finding C24-width-counts-runes)
 				ac = c24Diverge
@@ -495,8 +529,13 @@ func c24GenPrintf(r *Rand, thorough bool) (words []string, class int, tags []str
 }
 
 func c24GenEcho(r *Rand) (words []string, class int, tags []string) {
+	clean := r.Chance(55)
 	// options
-	switch r.Intn(12) {
+	k := r.Intn(12)
+	for clean && (k == 6 || k == 7) {
+		k = r.Intn(12)
+	}
+	switch k {
 	case 0:
 	case 1:
 		words = append(words, "-n")
@@ -524,11 +563,14 @@ func c24GenEcho(r *Rand) (words []string, class int, tags []string) {
 	for i := 0; i < n; i++ {
 		if r.Chance(10) {
 			words = append(words, r.Pick([]string{"-n", "-e", "--", "-", "-x", "-nx", ""}))
+			if clean && i == 0 {
+				words[len(words)-1] = "--"
+			}
 			// an option-like word after a non-option word is an ordinary argument in both shells,
 			// but directly after the options it continues the option list
 			continue
 		}
-		s, cl, ts := c24EscString(r, 2)
+		s, cl, ts := c24EscString(r, 2, clean)
 		if cl > class {
 			class = cl
 		}
